@@ -177,7 +177,11 @@ def make_faults(ctx, rng, thorough):
     for idx in sorted({0, n // 2, n - 1}):
         for kind in CORRUPTIONS:
             text = corrupt_record(rng, recs1, idx, kind)
-            pref = fastx.format_fastq(recs1[:idx])
+            # ground truth from the strict parser, not from the intention: a corruption can by coincidence leave a
+            # longer well-formed prefix (e.g. the next header taken as a quality line of the right length)
+            pref, wf = wf_prefix_fastq(text)
+            if wf:
+                continue
             yield Fault(f"corrupt-{kind}@rec{idx}", {"in1.fq": text.encode("latin-1")}, None, True, {"in1.fq": pref})
         # paired: mismatching mate name, missing mate
         bad2 = list(recs2)
@@ -214,10 +218,17 @@ def make_faults(ctx, rng, thorough):
         for o in sorted(set(cuts)):
             yield Fault(f"truncate-big-{kind}@{o}of{len(blob)}", {"in1.fq" + ext: blob[:o]}, None, True, {"in1.fq" + ext: tb}, detail=f"{kind}, 900+ records")
     yield Fault("gzip-empty", {"in1.fq.gz": b""}, None, False, {"in1.fq.gz": ""}, detail="gzip")
-    flips = range(10 * 8, len(gz) * 8) if False else [rng.randrange(10 * 8, len(gz) * 8) for _ in range(6 if not thorough else 60)]
+    # deflate body and CRC32 only: the 10-byte header has don't-care fields, and the final ISIZE field is not verified by
+    # every decompressor (the data and its CRC are intact then, nothing is lost)
+    flips = [rng.randrange(10 * 8, (len(gz) - 4) * 8) for _ in range(6 if not thorough else 60)]
     for bit in flips:
         b = bytearray(gz)
         b[bit // 8] ^= 1 << (bit % 8)
+        try:
+            if gzip.decompress(bytes(b)) == t1.encode():
+                continue   # the flip hit padding / don't-care bits: the stream is still a valid encoding of the same data
+        except Exception:
+            pass
         yield Fault(f"bitflip-gzip@bit{bit}", {"in1.fq.gz": bytes(b)}, None, True, None, detail="gzip-bitflip")
     # (d) FASTA truncations: every prefix is well-formed unless it ends inside/just after nothing
     fa = fastx.format_fasta(recs1)
